@@ -84,6 +84,7 @@ const TO_HOLDER: u64 = 2_000_000;
 const TO_CP: u64 = 900_000;
 const HTLC_SAT: u64 = 10_000;
 const CHANNEL_SAT: u64 = 3_000_000;
+const PUSH_SAT: u64 = 1_000_000; // channels with an incoming HTLC start with a balance on the other side
 
 // offsets inside a channel's block of transaction ids
 const FI1: u64 = 1;
@@ -148,7 +149,8 @@ struct ChanU {
     idx: u64,
     id0: ChannelId,
     perm: Option<ChannelId>,
-    htlc: bool,
+    htlc: bool,     // our commitment carries an HTLC we offered (outgoing payment); WE force-close
+    incoming: bool, // the counterparty's commitment carries an HTLC offered to us; THEY force-close
     prepared: Option<Prepared>,
 }
 
@@ -187,6 +189,8 @@ enum Op {
     Burst(usize),
     Remove,
     Restart,
+    // the node hands the signer the preimage of the incoming HTLC (not an operation of the model)
+    Fulfill(Key),
 }
 
 #[derive(Clone, Debug, PartialEq)]
@@ -222,6 +226,13 @@ struct Sess {
     asked: BTreeSet<Key>,
     forgotten_max: Option<u64>,
     view_base: BTreeMap<Key, usize>, // number of stack entries below the channel's view
+    // the harness's OWN record of the preimages it handed to the signer, and what that made of the
+    // incoming HTLC at the moment the counterparty's commitment first confirmed
+    given: BTreeSet<Key>,
+    frozen: BTreeMap<Key, bool>,
+    incoming_c: BTreeMap<u64, (Key, String, String)>, // commitment id -> (channel, kind if claimable, kind if not)
+    write_node_entry_after_fulfill: bool,
+    keysends: u8,
     last: View,
     // the record
     coq_ops: Vec<String>,
@@ -266,6 +277,11 @@ impl Sess {
             asked: BTreeSet::new(),
             forgotten_max: None,
             view_base: BTreeMap::new(),
+            given: BTreeSet::new(),
+            frozen: BTreeMap::new(),
+            incoming_c: BTreeMap::new(),
+            write_node_entry_after_fulfill: true,
+            keysends: 0,
             last: View { mem: BTreeMap::new(), disk: vec![], hwm_mem: 0, hwm_disk: 0, height: 0 },
             coq_ops: vec![],
             coq_obs: vec![],
@@ -309,7 +325,7 @@ impl Sess {
             if let Some(p) = &perm {
                 self.idmap.insert(p.inner().clone(), (key, true));
             }
-            self.chans.insert(key, ChanU { key, idx, id0, perm, htlc: key.1 % 2 == 0, prepared: None });
+            self.chans.insert(key, ChanU { key, idx, id0, perm, htlc: key.1 % 2 == 0, incoming: key.1 == 3, prepared: None });
         }
         self.chans.get_mut(&key).unwrap()
     }
@@ -326,11 +342,41 @@ impl Sess {
     fn coq_tx(&self, id: u64) -> String {
         let t = &self.txs[&id];
         let ins: Vec<String> = t.real.input.iter().map(|i| self.coq_op(&i.previous_output)).collect();
-        format!("(mktx {} {} {} ({}))", t.id, coq_list(&ins), t.real.output.len(), t.kind)
+        let kind = match self.incoming_c.get(&id) {
+            Some((key, with, without)) => if self.claimable(*key) { with.clone() } else { without.clone() },
+            None => t.kind.clone(),
+        };
+        format!("(mktx {} {} {} ({}))", t.id, coq_list(&ins), t.real.output.len(), kind)
     }
 
     fn coq_block(&self, b: &[u64]) -> String {
         coq_list(&b.iter().map(|i| self.coq_tx(*i)).collect::<Vec<_>>())
+    }
+
+    /// can the node claim the HTLC output of the commitment that closes this channel?  The
+    /// harness's own prediction: an HTLC we offered comes back to us by timeout; an HTLC offered to
+    /// us is ours iff the harness handed the preimage to the signer before the close confirmed.
+    fn claimable(&self, key: Key) -> bool {
+        let c = &self.chans[&key];
+        if c.htlc {
+            true
+        } else if c.incoming {
+            *self.frozen.get(&key).unwrap_or(&self.given.contains(&key))
+        } else {
+            false
+        }
+    }
+
+    fn preimage(&self, key: Key) -> PaymentPreimage {
+        let mut b = [0x40u8; 32];
+        b[0] = key.0 as u8;
+        b[1] = key.1 as u8;
+        PaymentPreimage(b)
+    }
+
+    /// the incoming HTLC as the counterparty's commitment 1 carries it
+    fn incoming_htlc(&self, key: Key) -> HTLCInfo2 {
+        HTLCInfo2 { value_sat: HTLC_SAT, payment_hash: PaymentHash::from(self.preimage(key)), cltv_expiry: 2000 }
     }
 
     /// the funding transaction of a channel whose stub exists (needs the channel's keys)
@@ -339,14 +385,14 @@ impl Sess {
             return;
         }
         let node_ctx = self.node_ctx();
-        let (idx, id0) = {
+        let (idx, id0, incoming) = {
             let c = self.chan(key);
-            (c.idx, c.id0.clone())
+            (c.idx, c.id0.clone(), c.incoming)
         };
         let setup = ChannelSetup {
             is_outbound: true,
             channel_value_sat: CHANNEL_SAT,
-            push_value_msat: 0,
+            push_value_msat: if incoming { PUSH_SAT * 1000 } else { 0 },
             funding_outpoint: OutPoint { txid: Txid::from_slice(&[2u8; 32]).unwrap(), vout: 0 },
             holder_selected_contest_delay: 6,
             holder_shutdown_script: None,
@@ -393,6 +439,9 @@ impl Sess {
             let c = self.chan(key);
             (c.idx, c.htlc)
         };
+        if self.chans[&key].incoming {
+            return self.finish_setup_incoming(key);
+        }
         // channels of peer 1 are in lockstep (holder and counterparty commitment with the same number held)
         let lockstep = key.0 == 1;
         let base = 1000 * (idx + 1);
@@ -454,6 +503,88 @@ impl Sess {
         } else {
             assert_eq!(self.txs[&(base + C)].real.compute_txid(), commitment.compute_txid(), "commitment changed");
         }
+    }
+
+    /// A channel whose counterparty has a balance (push) and offers us an HTLC: the initial holder
+    /// commitment is validated, the funding transaction signed, and the counterparty's commitments
+    /// 0 and 1 (1 carries the HTLC offered to us) are signed through the real entry point
+    /// sign_counterparty_commitment_tx_phase2.  What can confirm later is THEIR commitment 1.
+    fn finish_setup_incoming(&mut self, key: Key) {
+        let node_ctx = self.node_ctx();
+        let node = self.node.clone();
+        let idx = self.chans[&key].idx;
+        let base = 1000 * (idx + 1);
+        let hinfo = self.incoming_htlc(key);
+        let to_holder = CHANNEL_SAT - PUSH_SAT - 1000;
+        let commitment = {
+            let p = self.chans.get_mut(&key).unwrap().prepared.as_mut().unwrap();
+            let mut c0 = channel_commitment(&node_ctx, &p.chan_ctx, 0, 0, to_holder, PUSH_SAT, vec![], vec![]);
+            let (csig, hsigs) = counterparty_sign_holder_commitment(&node_ctx, &p.chan_ctx, &mut c0);
+            validate_holder_commitment(&node_ctx, &p.chan_ctx, &c0, &csig, &hsigs).expect("valid holder commitment");
+            let mut tx = p.funding.clone();
+            let witvec = p.tx_ctx.sign(&node_ctx, &tx).expect("sign funding");
+            p.tx_ctx.validate_sig(&node_ctx, &mut tx, &witvec);
+            node.with_channel(&p.chan_ctx.channel_id, |chan| {
+                chan.sign_counterparty_commitment_tx_phase2(&make_test_pubkey(11), 0, 0, to_holder, PUSH_SAT, vec![], vec![])?;
+                chan.sign_counterparty_commitment_tx_phase2(&make_test_pubkey(12), 1, 0, to_holder, PUSH_SAT - HTLC_SAT, vec![hinfo.clone()], vec![])?;
+                let htlcs = lightning_signer::channel::Channel::htlcs_info2_to_oic(&vec![hinfo.clone()], &vec![]);
+                let ctx = chan.make_counterparty_commitment_tx(&make_test_pubkey(12), 1, 0, to_holder, PUSH_SAT - HTLC_SAT, htlcs);
+                Ok(ctx.trust().built_transaction().transaction.clone())
+            })
+            .expect("counterparty commitments")
+        };
+        if !self.txs.contains_key(&(base + C)) {
+            let ctxid = commitment.compute_txid();
+            let pos = |sat: u64| commitment.output.iter().position(|o| o.value.to_sat() == sat).map(|p| p as u32);
+            let our = pos(to_holder).expect("our output");
+            let h = pos(HTLC_SAT).expect("htlc output");
+            let with = format!("Commitment (Some {}) [{}]", our, h);
+            let without = format!("Commitment (Some {}) []", our);
+            self.put_tx(base + C, "counterparty-commitment", commitment.clone(), without.clone());
+            self.incoming_c.insert(base + C, (key, with, without));
+            let nc = "NotCommitment".to_string();
+            self.put_tx(base + S, "sweep-our", tx_spending(&[OutPoint { txid: ctxid, vout: our }], 1, base + 7), nc.clone());
+            let ht = tx_spending(&[OutPoint { txid: ctxid, vout: h }], 2, base + 10);
+            let hid = ht.compute_txid();
+            self.put_tx(base + H, "htlc-claim", ht, nc.clone());
+            self.put_tx(base + X, "htlc-claim-spend", tx_spending(&[OutPoint { txid: hid, vout: 0 }], 1, base + 20), nc.clone());
+        } else {
+            assert_eq!(self.txs[&(base + C)].real.compute_txid(), commitment.compute_txid(), "commitment changed");
+        }
+        // a channel set up again (after its stub was pruned) starts without the preimage
+        self.frozen.remove(&key);
+    }
+
+    /// The node learned the preimage of the HTLC offered to us and hands it to the signer the way
+    /// the in-process (loopback) signer does: Channel::htlcs_fulfilled right before the next
+    /// commitment request, here the counterparty's commitment 1 signed again.  In the registered
+    /// run a later request that writes the node entry follows (add_keysend); the probe leaves it out.
+    fn fulfill(&mut self, key: Key) {
+        let node = self.node.clone();
+        let id0 = self.chans[&key].id0.clone();
+        let hinfo = self.incoming_htlc(key);
+        let pre = self.preimage(key);
+        let to_holder = CHANNEL_SAT - PUSH_SAT - 1000;
+        node.with_channel(&id0, |chan| {
+            chan.htlcs_fulfilled(vec![pre]);
+            chan.sign_counterparty_commitment_tx_phase2(&make_test_pubkey(12), 1, 0, to_holder, PUSH_SAT - HTLC_SAT, vec![hinfo.clone()], vec![])?;
+            Ok(())
+        })
+        .expect("htlcs_fulfilled + commitment");
+        let mut wrote = false;
+        if self.write_node_entry_after_fulfill {
+            self.keysends += 1;
+            let secp = Secp256k1::new();
+            let payee = PublicKey::from_secret_key(&secp, &lightning_signer::bitcoin::secp256k1::SecretKey::from_slice(&[3u8; 32]).unwrap());
+            let mut h = [0x77u8; 32];
+            h[0] = self.keysends;
+            let ok = node.add_keysend(payee, PaymentHash(h), 1000).expect("add_keysend");
+            assert!(ok, "keysend refused");
+            wrote = true;
+        }
+        self.given.insert(key);
+        self.jsteps.push(json!({"htlcs_fulfilled": [key.0, key.1], "then_a_request_that_writes_the_node_entry": wrote}));
+        self.bump("fulfilled");
     }
 
     // -------------------------------------------------------------- observation
@@ -617,7 +748,7 @@ impl Sess {
         }
         if let Some(ic) = pos(base + C) {
             let mut need = vec![base + S];
-            if c.htlc {
+            if self.claimable(key) {
                 need.push(base + H);
                 need.push(base + X);
             }
@@ -753,7 +884,29 @@ impl Sess {
         let mut code: u64 = 0;
         let mut panicked = false;
         let mut new_dbid_ok: Option<Key> = None;
+        if let Op::Fulfill(key) = op {
+            // only for a ready channel with an incoming HTLC whose closing commitment has not been
+            // seen on chain yet (the classification of a confirmed close must not change)
+            let ok = matches!(self.last.mem.get(key), Some(SlotView::Ready { .. }))
+                && self.chans.get(key).map(|c| c.incoming).unwrap_or(false)
+                && !self.frozen.contains_key(key)
+                && !self.given.contains(key);
+            if ok {
+                self.fulfill(*key);
+            }
+            return true;
+        }
+        if let Op::Add(ids) = op {
+            for id in ids.iter() {
+                if let Some((key, _, _)) = self.incoming_c.get(id) {
+                    let key = *key;
+                    let g = self.given.contains(&key);
+                    self.frozen.entry(key).or_insert(g);
+                }
+            }
+        }
         match op {
+            Op::Fulfill(_) => unreachable!(),
             Op::New(key) => {
                 let key = *key;
                 self.chan(key);
@@ -1204,6 +1357,24 @@ fn scripted(args: &Args) {
         New(k2), Setup(k2, n.clone()), Add(vec![tid(0, F)]), Add(vec![tid(0, C)]), Add(vec![tid(0, S)]), Add(vec![tid(0, H), tid(0, X)]),
         Restart, Remove, Remove, Forget(k2), Burst(md + 1), Heartbeat, Remove, Restart, Remove, Burst(md), Heartbeat,
     ]));
+    // an HTLC offered to us (dbid 3), the counterparty force-closes with it pending.  Preimage
+    // handed to the signer (htlcs_fulfilled + commitment, then a request that writes the node
+    // entry), restart, close, only our main output swept: the HTLC output is still ours to claim
+    let i3: Key = (0, 3);
+    scripts.push(("incoming-htlc-preimage-then-restart", 1000, vec![
+        New(i3), Setup(i3, n.clone()), Fulfill(i3), Restart, Add(vec![tid(0, F)]), Add(vec![tid(0, C)]), Add(vec![tid(0, S)]), Forget(i3),
+        Burst(md), Heartbeat, Restart, Heartbeat, Add(vec![tid(0, H)]), Burst(md), Heartbeat, Add(vec![tid(0, X)]),
+        Burst(md.saturating_sub(2)), Heartbeat, Add(vec![]), Heartbeat,
+    ]));
+    scripts.push(("incoming-htlc-preimage-no-restart", 1000, vec![
+        New(i3), Setup(i3, n.clone()), Add(vec![tid(0, F)]), Fulfill(i3), Add(vec![tid(0, C), tid(0, S)]), Forget(i3),
+        Burst(md), Heartbeat, Add(vec![tid(0, H), tid(0, X)]), Burst(md.saturating_sub(1)), Heartbeat,
+    ]));
+    // the same without the preimage: the HTLC output is not ours, the close is swept with the main output
+    scripts.push(("incoming-htlc-no-preimage", 1000, vec![
+        New((1, 3)), Setup((1, 3), n.clone()), Add(vec![tid(0, F)]), Add(vec![tid(0, C)]), Restart, Add(vec![tid(0, S)]), Forget((1, 3)),
+        Burst(md.saturating_sub(2)), Heartbeat, Add(vec![]), Heartbeat,
+    ]));
     // forget on a node that was itself restored from the store, then restart
     scripts.push(("forget-on-restored-node", 1000, vec![
         New(k1), Setup(k1, n.clone()), Add(vec![tid(0, F)]), Restart, Forget(k1), Restart, Heartbeat,
@@ -1229,6 +1400,45 @@ fn random(args: &Args, malformed: bool) {
         let mut removed_run = 0;
         let mut blocks_budget: usize = if args.tier == "quick" { 330 } else { 700 };
         let dbids: Vec<u64> = if malformed { vec![0, 1, 2, 3, 4, u64::MAX] } else { vec![1, 2, 3, 4] };
+        // one case in five starts with a counterparty force close that carries an HTLC offered to
+        // us: preimage handed over or not, restart or not, main output swept, HTLC claimed or not
+        if rng.chance(1, 5) {
+            let k: Key = (rng.below(2), 3);
+            let mut pre: Vec<Op> = vec![Op::New(k), Op::Setup(k, SetupKind::Normal)];
+            if rng.chance(2, 3) {
+                pre.push(Op::Fulfill(k));
+            }
+            if rng.chance(1, 2) {
+                pre.push(Op::Restart);
+            }
+            pre.push(Op::Add(vec![tid(0, F)]));
+            if rng.chance(1, 2) {
+                pre.push(Op::Add(vec![tid(0, C)]));
+                pre.push(Op::Add(vec![tid(0, S)]));
+            } else {
+                pre.push(Op::Add(vec![tid(0, C), tid(0, S)]));
+            }
+            match rng.below(4) {
+                0 => pre.push(Op::Add(vec![tid(0, H)])),
+                1 => pre.push(Op::Add(vec![tid(0, H), tid(0, X)])),
+                _ => {}
+            }
+            if rng.chance(1, 3) {
+                pre.push(Op::Restart);
+            }
+            pre.push(Op::Forget(k));
+            let n = *rng.pick(&[md.saturating_sub(1), md, md + 1]);
+            blocks_budget = blocks_budget.saturating_sub(n);
+            pre.push(Op::Burst(n));
+            pre.push(Op::Heartbeat);
+            for op in pre.iter() {
+                // (a transaction that does not fit - the HTLC claim when the HTLC is not ours - is still a valid block)
+                if !s.apply(op) {
+                    break;
+                }
+            }
+            s.bump("incoming_htlc_prefix");
+        }
         // one case in four starts with a unilateral close whose sweeps are spread over several
         // blocks (our output first), a reorg that removes the later sweep blocks, forget before or
         // after the reorg, and a burst up to the threshold: "swept once, not swept now"
@@ -1364,7 +1574,10 @@ fn random(args: &Args, malformed: bool) {
                         Op::Heartbeat
                     }
                 }
-                _ => Op::Restart,
+                _ => {
+                    let inc: Vec<Key> = ready.iter().cloned().filter(|k| s.chans[k].incoming && !s.frozen.contains_key(k) && !s.given.contains(k)).collect();
+                    if !inc.is_empty() && rng.chance(1, 2) { Op::Fulfill(*rng.pick(&inc)) } else { Op::Restart }
+                }
             };
             if matches!(op, Op::Remove) {
                 removed_run += 1;
@@ -1386,6 +1599,35 @@ fn random(args: &Args, malformed: bool) {
     emit("STATS", json!({"domain": if malformed { "prune-malformed" } else { "prune-random" }, "stats": stats}));
 }
 
+/// NOT part of the registered run.  The history the coordinator asked about, against the tree as
+/// it is: the preimage is handed over through htlcs_fulfilled + a commitment request and NO later
+/// request writes the node entry; restart; counterparty force close with the HTLC pending; only
+/// the main output swept; forget; MIN_DEPTH blocks; heartbeat.
+fn probe(args: &Args) {
+    let consts = read_consts();
+    let md = consts.min_depth as usize;
+    let mut stats = BTreeMap::new();
+    use Op::*;
+    let i3: Key = (0, 3);
+    let n = SetupKind::Normal;
+    for (name, write) in [("probe-preimage-without-node-entry-write", false), ("probe-preimage-with-node-entry-write", true)] {
+        let mut s = Sess::new(consts, 1000);
+        s.write_node_entry_after_fulfill = write;
+        let ops = vec![
+            New(i3), Setup(i3, n.clone()), Fulfill(i3), Restart, Add(vec![tid(0, F)]), Add(vec![tid(0, C)]), Add(vec![tid(0, S)]), Forget(i3),
+            Burst(md), Heartbeat, Restart, Heartbeat,
+        ];
+        for op in ops.iter() {
+            if !s.apply(op) {
+                break;
+            }
+        }
+        s.finish(name, true, &mut stats);
+    }
+    let _ = args;
+    emit("STATS", json!({"domain": "prune-probe", "stats": stats}));
+}
+
 fn main() {
     std::panic::set_hook(Box::new(|info| {
         let loc = info.location().map(|l| format!("{}:{}", l.file(), l.line())).unwrap_or_default();
@@ -1404,6 +1646,7 @@ fn main() {
         "scripted" => scripted(&args),
         "random" => random(&args, false),
         "malformed" => random(&args, true),
+        "probe" => probe(&args),
         _ => {
             eprintln!("usage: prune scripted|random|malformed --seed S --n N --tier T");
             std::process::exit(2);
